@@ -305,7 +305,7 @@ func checkC03(c *Ctx, r *Report) {
 			})
 		}
 	}
-	r.Floor("O1", nh, 8)
+	r.Floor("O1", nh, 5)
 	checkAPKDigestPlacement(c, r)
 	checkMd5sumsNames(c, r, pa)
 	checkMtree(c, r, pa)
@@ -656,13 +656,34 @@ func checkMtree(c *Ctx, r *Report, pa *provAnalysis) {
 
 func writesConstHeader(fn *ssa.Function, name string) bool {
 	found := false
+	isNameStore := func(st *ssa.Store) bool {
+		fa, ok := st.Addr.(*ssa.FieldAddr)
+		return ok && fieldName(fa.X.Type(), fa.Field) == "Name" && isNamed(fa.X.Type(), "archive/tar", "Header")
+	}
 	forEachInstr(fn, func(in ssa.Instruction) {
-		st, ok := in.(*ssa.Store)
-		if !ok {
-			return
-		}
-		if fa, ok := st.Addr.(*ssa.FieldAddr); ok && fieldName(fa.X.Type(), fa.Field) == "Name" && isNamed(fa.X.Type(), "archive/tar", "Header") && constOrEmpty(st.Val) == name {
-			found = true
+		switch x := in.(type) {
+		case *ssa.Store:
+			if isNameStore(x) && constOrEmpty(x.Val) == name {
+				found = true
+			}
+		case *ssa.Call:
+			// the constant handed to a module helper whose parameter becomes
+			// the header's name
+			sc := x.Call.StaticCallee()
+			if sc == nil || sc.Blocks == nil {
+				return
+			}
+			for i, a := range x.Call.Args {
+				if constOrEmpty(a) != name || i >= len(sc.Params) {
+					continue
+				}
+				prm := sc.Params[i]
+				forEachInstr(sc, func(i2 ssa.Instruction) {
+					if st, ok := i2.(*ssa.Store); ok && isNameStore(st) && st.Val == ssa.Value(prm) {
+						found = true
+					}
+				})
+			}
 		}
 	})
 	return found
